@@ -16,7 +16,7 @@ from . import specs
 from .specs import CharArr, cat_char, cnt_def, cnt_fn, cnt_lemmas, letters_member, rev_char, slc_char
 
 
-def _unsat(assumptions, goal, timeout=20000):
+def _unsat(assumptions, goal, timeout=180000):
     s = z3.Solver()
     s.set("timeout", timeout)
     for a in assumptions:
